@@ -1,7 +1,7 @@
 (* C10 — Countersignatures sign the RFC 9338 structure and bind to their exact parent.
    Statements only (copied from coq/theories by bin/mkprops); each proof is `exact <lemma>`. *)
 From Coq Require Import Ascii String ZArith List Bool Permutation.
-From GoCose Require Import Bytes Cbor CborProofs Res GoVal Obs Ecdsa Fx Headers Enc Dec Msg HashEnv Key SigVer Run TbsProofs FlowProofs AskedOnce.
+From GoCose Require Import Bytes Cbor CborProofs Res GoVal Obs Ecdsa Fx Headers Enc Dec Msg HashEnv Key SigVer Run TbsProofs FlowProofs AskedOnce CsigList.
 From GoCose.Gen Require Import Generated.
 Import ListNotations.
 Open Scope Z_scope.
@@ -87,3 +87,21 @@ Theorem C10_csig_sign_keeps_holder :
    (rawP (sg_h s) = None /\ hP (sg_h (out_post o)) = Some (set_alg (hmap (hP (sg_h s))) (sg_alg sg)))).
 Proof. exact csig_sign_keeps_holder. Qed.
 Print Assumptions C10_csig_sign_keeps_holder.
+
+(* a parent decoded with a list of countersignatures: entry i is decoded from element i of the wire, so each entry is verified over its own protected bytes and signature *)
+Theorem C10_dec_sig_list_nth :
+  forall f l cs i y,
+  dec_sig_list f l = Acc cs -> nth_error l i = Some y ->
+  exists c, nth_error cs i = Some c /\ dec_sig_at f (strip_sd y) = Acc c.
+Proof. exact dec_sig_list_nth. Qed.
+Print Assumptions C10_dec_sig_list_nth.
+
+(* a decoded countersignature retains the bytes of its own element: protected and unprotected items as serialised, its own signature *)
+Theorem C10_dec_sig_at_own_bytes :
+  forall f x c,
+  dec_sig_at f x = Acc c ->
+  exists p uu s pm um sg,
+    x = WArr W0 [p; uu; s] /\ bstr_or_nil s = Acc sg /\
+    c = GCsig (Some (ser p)) (Some pm) (Some (ser uu)) (Some um) sg.
+Proof. exact dec_sig_at_own_bytes. Qed.
+Print Assumptions C10_dec_sig_at_own_bytes.
